@@ -28,6 +28,8 @@ import (
 	"go/constant"
 	"go/token"
 	"go/types"
+	"math"
+	"math/big"
 	"path/filepath"
 	"strings"
 
@@ -107,6 +109,16 @@ var gfSpecs = []gfSpec{
 	{pkg: "", recv: "Editor", fn: "Apply", lean: "editorApply"},
 	{pkg: "", recv: "Editor", fn: "ApplyParagraphs", lean: "editorApplyParagraphs"},
 	{pkg: "", recv: "Editor", fn: "InsertTable", lean: "editorInsertTable"},
+	// T2: two-column layout and definitions table (with the tb.Block methods they use)
+	{pkg: "internal/tb", recv: "Block", fn: "Apply", lean: "blockApply", inout: []string{"tb"}},
+	{pkg: "internal/tb", recv: "Block", fn: "AppendBlock", lean: "blockAppendBlock", inout: []string{"tb"},
+		fuel: []string{"v_b.lines.length + 1"}},
+	{pkg: "internal/tb", recv: "Block", fn: "Remove", lean: "blockRemove", inout: []string{"tb"}},
+	{pkg: "", recv: "Editor", fn: "InsertTwoColumnsOpts", lean: "editorInsertTwoColumnsOpts",
+		fuel: []string{"v_leftColBlock.lines.length + 1"}},
+	{pkg: "", recv: "Editor", fn: "InsertTwoColumns", lean: "editorInsertTwoColumns"},
+	{pkg: "", recv: "Editor", fn: "InsertDefinitionsTableOpts", lean: "editorInsertDefinitionsTableOpts"},
+	{pkg: "", recv: "Editor", fn: "InsertDefinitionsTable", lean: "editorInsertDefinitionsTable"},
 }
 
 // ---------------------------------------------------------------------------------------------
@@ -277,8 +289,16 @@ func gfType(t types.Type) string {
 			return "List α"
 		case types.Int32, types.UntypedRune:
 			return "α"
+		case types.Float64, types.UntypedFloat:
+			return "Pct" // T2: a finite float64 as an exact dyadic rational (Model/Ops.lean)
 		}
 		gfFail("type %s", v.Name())
+	case *types.Array:
+		// T2: an array of two elements is a pair
+		if v.Len() != 2 {
+			gfFail("array type %s", t.String())
+		}
+		return "(" + gfType(v.Elem()) + " × " + gfType(v.Elem()) + ")"
 	case *types.Slice:
 		if b, ok := v.Elem().(*types.Basic); ok && b.Kind() == types.Int32 {
 			return "List α"
@@ -334,6 +354,8 @@ func gfZero(t types.Type) string {
 		return "(0 : Int)"
 	case lt == "Bool":
 		return "false"
+	case lt == "Pct":
+		return "(Pct.mk false 0 0)"
 	case strings.HasPrefix(lt, "List"):
 		return "([] : " + lt + ")"
 	case strings.HasPrefix(lt, "Option"):
@@ -473,6 +495,56 @@ func isBool(t types.Type) bool {
 	return false
 }
 
+// T2: floats.  A finite float64 is the hand model's `Pct` (sign, numerator, binary exponent).  Only constants,
+// comparisons and `int(float64(n) * p)` are translated; every other float operation refuses the function.
+func isFloat(t types.Type) bool {
+	if b, ok := t.Underlying().(*types.Basic); ok {
+		return b.Info()&types.IsFloat != 0
+	}
+	return false
+}
+
+// the float64 value of a constant as an exact dyadic rational `± num / 2^exp` (num odd or zero)
+func gfFloatConst(v constant.Value) string {
+	f, _ := constant.Float64Val(constant.ToFloat(v)) // the constant as the float64 the compiled code holds
+	if math.IsNaN(f) || math.IsInf(f, 0) {
+		gfFail("float constant %s", v.String())
+	}
+	neg := "false"
+	if math.Signbit(f) {
+		neg = "true"
+	}
+	if f == 0 {
+		return "(Pct.mk " + neg + " 0 0)"
+	}
+	frac, e := math.Frexp(math.Abs(f)) // |f| = frac * 2^e, 1/2 ≤ frac < 1
+	num := new(big.Int).SetUint64(uint64(math.Ldexp(frac, 53)))
+	e -= 53 // |f| = num * 2^e
+	for num.Bit(0) == 0 {
+		num.Rsh(num, 1)
+		e++
+	}
+	exp := 0
+	if e >= 0 {
+		num.Lsh(num, uint(e))
+	} else {
+		exp = -e
+	}
+	return fmt.Sprintf("(Pct.mk %s %s %d)", neg, num.String(), exp)
+}
+
+// `float64(n)` with n an int expression: n
+func (c *gfCtx) floatOfInt(e ast.Expr) (ast.Expr, bool) {
+	call, ok := unparen(e).(*ast.CallExpr)
+	if !ok || len(call.Args) != 1 {
+		return nil, false
+	}
+	if tv, ok := c.info.Types[call.Fun]; !ok || !tv.IsType() || !isFloat(tv.Type) || !isInt(c.typeOf(call.Args[0])) {
+		return nil, false
+	}
+	return call.Args[0], true
+}
+
 func objKey(o types.Object) string {
 	if o.Pkg() == nil {
 		return o.Name()
@@ -580,6 +652,22 @@ func (c *gfCtx) bexpr(e ast.Expr) (string, bool) {
 				}
 				return c.nilCmp(other, x.Op)
 			}
+			if isFloat(lt) { // T2: comparisons of floats
+				l, r := c.vexpr(x.X), c.vexpr(x.Y)
+				switch x.Op {
+				case token.LSS:
+					return "(Go.f64Lt " + l + " " + r + ")", true
+				case token.LEQ:
+					return "(Go.f64Le " + l + " " + r + ")", true
+				case token.GTR:
+					return "(Go.f64Lt " + r + " " + l + ")", true
+				case token.GEQ:
+					return "(Go.f64Le " + r + " " + l + ")", true
+				case token.EQL:
+					return "(Go.f64Eq " + l + " " + r + ")", true
+				}
+				return "(¬Go.f64Eq " + l + " " + r + ")", true
+			}
 			if x.Op != token.EQL && x.Op != token.NEQ && !isInt(lt) {
 				gfFail("ordering on %s", lt.String())
 			}
@@ -652,6 +740,9 @@ func (c *gfCtx) strLit(s string) string {
 }
 
 func (c *gfCtx) constVal(v constant.Value, t types.Type) (string, bool) {
+	if isFloat(t) { // T2
+		return gfFloatConst(v), true
+	}
 	switch v.Kind() {
 	case constant.Int:
 		if b, ok := t.Underlying().(*types.Basic); ok && (b.Kind() == types.Int32 || b.Kind() == types.UntypedRune) {
@@ -722,6 +813,9 @@ func (c *gfCtx) vexpr(e ast.Expr) string {
 	case *ast.UnaryExpr:
 		switch x.Op {
 		case token.SUB:
+			if !isInt(c.typeOf(x)) {
+				gfFail("unary - on %s", c.typeOf(x).String())
+			}
 			return "(-" + c.vexpr(x.X) + ")"
 		case token.AND:
 			if strings.HasPrefix(gfType(c.typeOf(x)), "Option") {
@@ -763,6 +857,14 @@ func (c *gfCtx) vexpr(e ast.Expr) string {
 		return c.selector(x)
 	case *ast.IndexExpr:
 		xt := c.typeOf(x.X)
+		if arr, ok := xt.Underlying().(*types.Array); ok && arr.Len() == 2 { // T2: `d[0]`, `d[1]` on a pair
+			tv, ok := c.info.Types[x.Index]
+			if !ok || tv.Value == nil {
+				gfFail("array index that is not a constant")
+			}
+			i, _ := constant.Int64Val(tv.Value) // in range: checked by the compiler
+			return fmt.Sprintf("(%s.%d)", c.vexpr(x.X), i+1)
+		}
 		if _, ok := xt.Underlying().(*types.Slice); !ok {
 			gfFail("index into %s", xt.String())
 		}
@@ -1017,6 +1119,19 @@ func (c *gfCtx) call(x *ast.CallExpr) string {
 			gfFail("conversion arity")
 		}
 		from, to := gfType(c.typeOf(x.Args[0])), gfType(tv.Type)
+		if from == "Pct" && to == "Int" { // T2: `int(float64(n) * p)`, the only float arithmetic translated
+			if mul, ok := unparen(x.Args[0]).(*ast.BinaryExpr); ok && mul.Op == token.MUL {
+				if n, ok := c.floatOfInt(mul.X); ok {
+					nv := c.vexpr(n)
+					return "(Go.f64MulTrunc " + nv + " " + c.vexpr(mul.Y) + ")"
+				}
+				if n, ok := c.floatOfInt(mul.Y); ok {
+					pv := c.vexpr(mul.X)
+					return "(Go.f64MulTrunc " + c.vexpr(n) + " " + pv + ")"
+				}
+			}
+			gfFail("conversion of a float expression other than float64(n) * p to int")
+		}
 		if from != to {
 			gfFail("conversion %s → %s", from, to)
 		}
@@ -1735,6 +1850,9 @@ func (c *gfCtx) stmts(list []ast.Stmt, k func() []string) []string {
 		op := "+"
 		if s.Tok == token.DEC {
 			op = "-"
+		}
+		if !isInt(c.typeOf(s.X)) {
+			gfFail("%s on %s", s.Tok, c.typeOf(s.X).String())
 		}
 		v := "(" + c.vexpr(s.X) + " " + op + " (1 : Int))"
 		out := c.take()
